@@ -10,11 +10,11 @@ ID = 'C08'
 LEVEL = 'exploration'
 TIERS = {'quick': 5000, 'thorough': 150000}
 RULE = ('seeded pulls: device file content/size (0 .. big), DATA record size sequences (1 .. 64 KiB), WRTE boundaries anywhere incl. inside the 8-byte '
-        'sync header (cut policies whole/record/random/tiny/straddle/one), all read fragmentations, destination path or BytesIO, callback absent / '
+        'sync header (cut policies whole/record/random/tiny/straddle/one), zero-length DATA records and zero-length WRTEs in between, all read fragmentations, destination path or BytesIO, callback absent / '
         'counting / raising (=> nested stat stream), sometimes preceded by a pull whose destination fails mid-transfer; cases with a callback are re-run without it and destinations compared. '
         'non-trivial = a sync header was split across two WRTEs; distinct = event-log digests')
 ASSUMPTIONS = ['adbd keeps serving the sync connection after RECV; the host closes the stream']
-EXPECT_PROBES = {'all': ['sync_header_split_across_wrte', 'c08_callback', 'c08_file_dest', 'c08_multi_record', 'c08_aborted_pull_first']}
+EXPECT_PROBES = {'all': ['sync_header_split_across_wrte', 'c08_callback', 'c08_file_dest', 'c08_multi_record', 'c08_aborted_pull_first', 'recv_empty_data_record', 'sync_empty_wrte_between_pieces']}
 OWN = ('wrong-result', 'unexpected-exception', 'timeout-instead-of-result', 'missing-exception', 'wrong-exception', 'hang', 'no-termination',
        'callback-count', 'pull-requests', 'pull-not-closed', 'cb-changes-result', 'unacked-write')
 
@@ -36,6 +36,12 @@ def generate(seed, tier):
             # what STAT says about the file is not what RECV delivers (a file that grows, /proc entries with st_size 0, a symlink's lstat)
             f = d['fs'][p]
             d.setdefault('stat_override', {})[p] = [f['mode'], g.pick([0, f['content']['size'] // 2, 1, f['content']['size'] + 100]), f['mtime']]
+    if g.chance(0.12):
+        # DATA records without data between the others (a device-side read that returned nothing yet)
+        for p in [op['path'] for op in ops]:
+            d['fs'][p]['empty_every'] = g.pick([1, 2, 3])
+    if g.chance(0.12):
+        d['empty_wrte_in_sync'] = g.pick([1, 1, 2, 5])       # WRITEs without payload between the WRITEs of a sync reply
     if g.chance(0.15):
         # the destination fails in the middle of a multi-record pull; the next pull on the same connection must be unaffected
         p0 = S.add_file(g, d, 20000)
